@@ -5,6 +5,7 @@
    History keeps the ChangeContents):
 
      File.read()               self.newlines := convention detected in the bytes on disk now
+                               [fe48e43: unless the text has no line break and self.newlines is already set]
      write_file(obj, text)     if obj.newlines is None (and the file exists): obj.read()      [f64a998]
                                bytes := unicode_to_file_data(text, newlines=obj.newlines)
                                observers: with automatic_soa and a Python file, pycore's observer calls
@@ -68,7 +69,13 @@ Section Session.
   Definition detected (s : sess) : nl := snd (from_bytes v lookup (s_disk s)).
 
   (* obj.read() *)
-  Definition obj_read (s : sess) (i : nat) : sess := with_obj s i (Some (detected s)).
+  Definition obj_read (s : sess) (i : nat) : sess :=
+    with_obj s i
+      (match get_obj s i with
+       | Some m =>
+           if v_keep v && negb (has_lf (fst (from_bytes v lookup (s_disk s)))) then Some m else Some (detected s)
+       | None => Some (detected s)
+       end).
 
   (* write_file(obj i, t) while History.current_change is set *)
   Definition obj_write (s : sess) (i : nat) (t : text) : sess * wres :=
@@ -158,9 +165,9 @@ End Session.
 Definition initial (b : list N) : sess := {| s_disk := b; s_objs := [None]; s_undo := []; s_redo := [] |}.
 
 (* ---- what a session preserves (statement side of C16_session_preserves) ------------------------------------
-   [c], [n], [ck]: the file's codec, newline convention and declaration.  A text is [good] when it can be the
-   contents of such a file: CR-free with at least one line break (so that the file shows its convention), same
-   declaration, encodable. *)
+   [c], [n], [ck]: the file's codec, newline convention and declaration.  A text is [ok_text] when it can be the
+   contents of such a file: CR-free, same declaration, encodable; it is [good] when it also has a line break, so
+   that the file shows its convention. *)
 Section Invariant.
   Variable lookup : text -> option codec.
   Variable c : codec.
@@ -169,28 +176,54 @@ Section Invariant.
 
   Definition file_of (t : text) : option (list N) := enc c (encode_nl t (Some n)).
 
-  Definition good (t : text) : Prop :=
-    has_cr t = false /\ has_lf t = true /\ cookie_of (encode_nl t (Some n)) = ck /\ file_of t <> None.
+  Definition ok_text (t : text) : Prop :=
+    has_cr t = false /\ cookie_of (encode_nl t (Some n)) = ck /\ file_of t <> None.
+  Definition good (t : text) : Prop := ok_text t /\ has_lf t = true.
 
   Definition codec_declared : Prop :=
     match ck with None => c = utf8 | Some name => lookup name = Some c end.
 
   Definition obj_ok (o : option nl) : Prop := o = None \/ o = Some n.
-  (* a history entry refers to an existing File object and holds good texts *)
+  (* a history entry refers to an existing File object and holds texts of the file *)
   Definition entry_ok (len : nat) (e : hentry) : Prop :=
-    (fst (fst e) < len)%nat /\ good (snd (fst e)) /\ good (snd e).
+    (fst (fst e) < len)%nat /\ ok_text (snd (fst e)) /\ ok_text (snd e).
 
   Definition session_inv (s : sess) : Prop :=
-    (exists T, good T /\ file_of T = Some (s_disk s))
+    (exists T, ok_text T /\ file_of T = Some (s_disk s))
     /\ (0 < length (s_objs s))%nat /\ Forall obj_ok (s_objs s)
     /\ Forall (entry_ok (length (s_objs s))) (s_undo s) /\ Forall (entry_ok (length (s_objs s))) (s_redo s).
 
-  (* edits write good texts; an external rewrite keeps codec, convention and declaration *)
-  Definition step_good (st : step) : Prop :=
+  (* the text File.read() returns now, and: File object i has read the file before, or the file shows its
+     convention (a File object that never read the file takes the convention from the bytes on disk) *)
+  Definition cur_text (s : sess) : text := fst (from_bytes repaired lookup (s_disk s)).
+  Definition obj_knows (s : sess) (i : nat) : Prop := get_obj s i = None -> has_lf (cur_text s) = true.
+
+  (* edits write texts of the file (a line break is NOT required); an external rewrite keeps codec, convention
+     and declaration and shows the convention; a fresh File object is only used while the file shows it *)
+  Definition step_ok (s : sess) (st : step) : Prop :=
     match st with
-    | SWrite t | SDoFresh t | SDoSame t => good t
+    | SRead => obj_knows s 0
+    | SWrite t | SDoSame t => ok_text t /\ obj_knows s 0
+    | SDoFresh t => ok_text t /\ has_lf (cur_text s) = true
+    | SUndo => match s_undo s with (i, _, _) :: _ => obj_knows s i | [] => True end
+    | SRedo => match s_redo s with (i, _, _) :: _ => obj_knows s i | [] => True end
     | SExternal b => exists T, good T /\ file_of T = Some b
-    | _ => True
+    | SReopen => True
+    end.
+
+  Fixpoint steps_ok (soa : bool) (s : sess) (steps : list step) : Prop :=
+    match steps with
+    | [] => True
+    | st :: r => step_ok s st /\ steps_ok soa (fst (run_step repaired lookup soa s st)) r
+    end.
+
+  (* static version for one File object: no fresh objects, no reopening *)
+  Definition step_single (st : step) : Prop :=
+    match st with
+    | SWrite t | SDoSame t => ok_text t
+    | SExternal b => exists T, good T /\ file_of T = Some b
+    | SRead | SUndo | SRedo => True
+    | SDoFresh _ | SReopen => False
     end.
 
   (* the bytes on disk after a step, given the state before it *)
